@@ -72,6 +72,23 @@ pub fn boundary_cases() -> Vec<Vec<Entry>> {
             }
         }
     }
+    // a bare `0` with a cost / total cost / lot (ZeroAmountWithExchange), first and later posting
+    for total in [false, true] {
+        for as_lot in [false, true] {
+            for at in [0usize, 2] {
+                let x = if total { Exch::Total(lit(2, 0, 2)) } else { Exch::Rate(lit(2, 0, 2)) };
+                let mut z = post(0, Some(VE::Amt(Lit { m: 0, scale: 0, comm: None, grouped: false })));
+                if as_lot {
+                    z.lot = Some(x);
+                } else {
+                    z.cost = Some(x);
+                }
+                let mut posts = vec![post(1, Some(lit(5, 0, 4))), post(2, Some(lit(-5, 0, 4)))];
+                posts.insert(at, z);
+                out.push(vec![Entry::Txn(Txn { effective: None, date: 10, posts, head: Head::default() })]);
+            }
+        }
+    }
     // two residual commodities of extreme magnitude (each value, and their quotient, representable)
     for (m1, s1, m2, s2) in [
         (1_000_000_000_000_000i64, 0u32, 2_000_000_000_000_000i64, 0u32),
@@ -104,17 +121,22 @@ pub fn boundary_cases() -> Vec<Vec<Entry>> {
 pub fn run(o: &Opts) {
     let mut st = Stats::new();
     let mut sh = Shards::new(&o.out, o.shards, &header("Classify_C01"));
-    st.rule = "ledger text generated from a tree (1-5 transactions of 1-6 postings; explicit/omitted/assigned amounts; 1-3 of 5 commodities; zero and negative values; @/@@ costs; {}/{{}} lots, one in eight written with a minus sign; parenthesised expressions, about one term in eight divided by a number without a finite reciprocal (3, 6, 7, 9, 11, 12, 13, 0.3, 0.07, 15, 21, 1.4) with the dividend - a literal, `term * d`, or a sum - an exact multiple of it (counted as cases_with:exact_division_by_number_without_finite_reciprocal); format declarations; sums on half-unit rounding boundaries) plus an enumerated boundary set (residual shape x sign x rounding); run through report::process on a FakeFileSystem; non-trivial = the deciding transaction reached check_balance or amount deduction; distinct by ledger text".into();
+    st.rule = "ledger text generated from a tree (1-5 transactions of 1-6 postings; explicit/omitted/assigned amounts; 1-3 of 5 commodities; zero and negative values; @/@@ costs; {}/{{}} lots, one in eight written with a minus sign; parenthesised expressions, about one term in eight divided by a number without a finite reciprocal (3, 6, 7, 9, 11, 12, 13, 0.3, 0.07, 15, 21, 1.4) with the dividend - a literal, `term * d`, or a sum - an exact multiple of it (counted as cases_with:exact_division_by_number_without_finite_reciprocal); format declarations; sums on half-unit rounding boundaries) plus an enumerated boundary set (residual shape x sign x rounding); run through report::process on a FakeFileSystem; three ledgers in four are written with text outside ASCII that the book-keeping never reads (payees, codes, comment lines under the header and under postings, trailing comments, comment entries; two-, three- and four-byte characters, double-width and combining ones) and/or with account names outside ASCII; every rejected ledger's error is rendered as the user sees it (Display of ReportError) and read back - title, `--> line:col`, the lines of the excerpt, every labelled marker - and must name the entry (and posting) the model says fails: diag:* counts; non-trivial = the deciding transaction reached check_balance or amount deduction; distinct by ledger text".into();
     st.rule = format!("{}; {}", st.rule, TEXT_SHAPES_RULE);
     st.assumptions.push("no total price (@@, {{}}) on an amount that is a zero produced by an expression (rust_decimal keeps a sign bit on zero that the exact-rational model does not represent)".into());
     st.assumptions.push("literal mantissas below 10^7 with scale <= 3, products of at most three factors, quotients exact by construction: every intermediate Decimal is exact".into());
+    st.assumptions.push(format!("errors are rendered by annotate-snippets' plain renderer on a terminal of {} columns, so that no excerpt line is cut (a line beyond {} columns would be counted as diag:excerpt_cut_not_read)", crate::diag::TERM_WIDTH, crate::diag::MAX_LINE_COLS));
     let (corpus, replay) = corpus_entries(&o.corpus, &o.extra);
-    for es in corpus {
-        emit_ledger_case(&mut sh, &mut st, "C01", &es, &nontrivial, "corpus");
+    let decos = corpus_decos(&o.corpus, &o.extra);
+    for (k, es) in corpus.iter().enumerate() {
+        emit_ledger_case(&mut sh, &mut st, "C01", es, decos.get(k).unwrap_or(&Deco::default()), &nontrivial, "corpus");
     }
     if !replay {
-        for es in boundary_cases() {
-            emit_ledger_case(&mut sh, &mut st, "C01", &es, &nontrivial, "boundary");
+        // the text the book-keeping never reads: its own stream, so that the ledgers stay those of the seed
+        let mut rd = Rng::new(o.seed, 1101);
+        for mut es in boundary_cases() {
+            let deco = decorate(&mut rd, &mut es);
+            emit_ledger_case(&mut sh, &mut st, "C01", &es, &deco, &nontrivial, "boundary");
         }
         let mut r = Rng::new(o.seed, 101);
         let n = if o.thorough { 40000 } else { 2500 };
@@ -129,8 +151,9 @@ pub fn run(o: &Opts) {
                 b.wrong_assert_pct = 3;
                 b.neg_exch_pct = 12;
             }
-            let es = gen_ledger(&mut r, &b);
-            emit_ledger_case(&mut sh, &mut st, "C01", &es, &nontrivial, "random");
+            let mut es = gen_ledger(&mut r, &b);
+            let deco = decorate(&mut rd, &mut es);
+            emit_ledger_case(&mut sh, &mut st, "C01", &es, &deco, &nontrivial, "random");
         }
     }
     sh.finish(&st);
